@@ -345,4 +345,79 @@ PROPS["C10"] = dict(
     parts=[dict(engine="e1", harness="c10_morphgraph")],
 )
 
+PROPS["C15"] = dict(
+    level="model_checking",
+    engine_name="seqx",
+    rule="sequential half (c15_reductions, 51 cases): every sequence of <=4 "
+         "(quick) / <=5 (thorough) updates from {lowest,-2,-1,-0.5,0,1,max} "
+         "x every assignment to 3 threads (real on_each, thread t applies "
+         "its own updates) for GAccumulator (+=, -=, update forms), "
+         "GReduceMax/Min, logical and/or, user Reducibles incl. a move-only "
+         "type, on int / unsigned / float / double; oracle = sequential fold, "
+         "reduce twice, reset, reuse. DynamicBitSet: history BFS to a closed "
+         "state space for n in {1,63,64,65,130}, reset(b,e) for ALL b<=e, "
+         "bitwise ops over a block alphabet; UnionFind: BFS closed at 24 "
+         "states; atomicMin/Max/Add/Subtract sequentially; per-thread "
+         "containers filled from on_each. Non-trivial = >=2 threads received "
+         "an update / range crosses a word boundary / tree depth>=2 / value "
+         "changed (per case, see harness)",
+    bound_note="exhaustive to the stated lengths; signed overflow and "
+               "non-finite float results excluded (undefined for model and "
+               "implementation alike)",
+    assumptions=E2_ASSUME + [
+        "the schedule-explored half (concurrent atomicMin/Max, bitset bits of "
+        "one word, union-find merges) is not part of this check yet"],
+    deadline=dict(quick=240, thorough=2400),
+    technique="bounded-exhaustive enumeration of update multisets x thread "
+              "assignments and explicit-state BFS over operation histories "
+              "on the real code (seqx), against sequential folds / "
+              "std::vector<bool> / a partition model",
+    level_text="all update sequences and thread assignments below the bound "
+               "run through the real reducers with real threads; bitset and "
+               "union-find state spaces are closed",
+    level_note="thread interleavings inside on_each are not controlled here "
+               "(reducers are per-thread, so the result is schedule "
+               "independent by construction)",
+    design_ref="DESIGN.md 3, 7/C15",
+    parts=[dict(engine="e2", harness="c15_reductions")],
+)
+
+PROPS["C17"] = dict(
+    level="model_checking",
+    rule="network half (c17_network): the real NetworkBuffered.cpp / "
+         "NetworkIOMPI.cpp / Network.cpp / Barrier.cpp over an in-process MPI "
+         "reflector (message to host h tag t comes back from host h tag t, "
+         "FIFO per peer, arbitrary across peers), communication thread + "
+         "1-2 sender threads, 1-4 messages to 1-2 peers with 2 tags and "
+         "payloads of 16 / 1399 / 1401 bytes around COMM_MIN and 3 MiB, flush "
+         "present/absent, aggregation timeout always/never firing, host "
+         "fence. Choice points = thread schedule AND environment answers "
+         "(which pending message MPI_Iprobe shows or none; whether MPI_Test "
+         "completes); executions = all with <= bound deviations. Oracle: "
+         "every message received exactly once, byte-identical, in order per "
+         "(sender, peer, tag); send buffers intact until completion; nothing "
+         "extra; non-trivial = distinct trace hash among executions with "
+         ">= 1 deviation",
+    bound_note="per-cell bound_completed in coverage.cells",
+    assumptions=E1_ASSUME + [
+        "one process plays all hosts through the reflector; real multi-"
+        "process MPI transport is not explored",
+        "serialisation half is checked by c17_serialize (seqx)"],
+    deadline=dict(quick=240, thorough=3000),
+    technique="stateless model checking of the implementation with "
+              "environment-answer enumeration (gsched + fake MPI reflector)",
+    level_text="every schedule and environment-answer sequence with <= d "
+               "deviations (d=0-1 quick, 1-2 thorough) of the real buffered "
+               "network layer; exactly-once, intact, in-order delivery "
+               "checked on each",
+    level_note="bounded: <=4 messages, <=3 hosts, <=2 sender threads",
+    design_ref="DESIGN.md 4, 7/C17",
+    parts=[dict(engine="e1", harness="c17_network",
+                extra_srcs=("libdist/src/NetworkBuffered.cpp",
+                            "libdist/src/Network.cpp",
+                            "libdist/src/NetworkIOMPI.cpp",
+                            "libdist/src/Barrier.cpp"),
+                extra_inc=("harness/fakempi",))],
+)
+
 NOT_APPLICABLE = {}
